@@ -444,3 +444,43 @@ PROPS["C09"]["required_theorems"] = PROPS["C09"]["required_theorems"] + ["Crdt.C
 PROPS["C09"]["profiles"] = PROPS["C09"]["profiles"] + [dict(name="list_hist", quick=500, thorough=10000)]
 PROPS["C08"]["lean_targets"] = PROPS["C08"]["lean_targets"] + ["CrdtModel.Witness.ListNeedsCausal"]
 PROPS["C08"]["required_theorems"] = PROPS["C08"]["required_theorems"] + ["Crdt.Witness.list_delete_before_insert_diverges"]
+
+# --------------------------------------------------------------------------------------------
+# C19 (serde round trips)
+# --------------------------------------------------------------------------------------------
+PROPS["C19"] = dict(
+    lean_targets=["CrdtModel.Props.C19", "CrdtModel.Witness.SerdeDeferred"], audit="CrdtModel/Audit/C19.lean",
+    required_theorems=["Crdt.C19." + t for t in [
+        "dot_roundtrip", "vclock_roundtrip", "gcounter_roundtrip", "pncounter_roundtrip", "pncounter_op_roundtrip", "gset_roundtrip", "lwwreg_roundtrip",
+        "maxreg_roundtrip", "minreg_roundtrip", "mvreg_roundtrip", "mvreg_op_roundtrip", "orswot_roundtrip", "orswot_op_roundtrip", "map_roundtrip", "map_op_roundtrip",
+        "bigint_roundtrip", "rational_roundtrip", "identifier_roundtrip", "glist_roundtrip", "glist_op_roundtrip", "list_roundtrip", "list_op_roundtrip",
+        "merkle_roundtrip", "merkle_op_roundtrip",
+        "vclock_encode_total", "gcounter_encode_total", "pncounter_encode_total", "gset_encode_total", "lwwreg_encode_total", "maxreg_encode_total", "minreg_encode_total",
+        "mvreg_encode_total", "mvreg_op_encode_total", "orswot_op_encode_total", "map_op_encode_total", "glist_encode_total", "list_encode_total", "list_op_encode_total",
+        "merkle_encode_total", "merkle_op_encode_total",
+        "orswot_encode_fails_iff", "orswot_encode_ok_iff", "orswot_error_text", "map_encode_fails_iff", "map_error_text",
+        "map_mvreg_encode_fails_iff", "map_orswot_encode_fails_iff", "map_map_mvreg_encode_fails_iff",
+        "orswot_roundtrip_u64", "map_mvreg_roundtrip", "map_orswot_roundtrip", "map_map_mvreg_roundtrip", "map_map_mvreg_op_roundtrip", "list_roundtrip_u64", "glist_roundtrip_u64",
+        "restored_eq", "restored_behaves_identically", "persist_anywhere", "persist_anywhere_equiv",
+        "orswot_persist_anywhere", "mvreg_persist_anywhere", "gcounter_persist_anywhere", "pncounter_persist_anywhere", "vclock_persist_anywhere", "gset_persist_anywhere",
+        "merkle_persist_anywhere", "orswot_reachable_encode_fails_iff", "persist_anywhere_any", "maxreg_persist_anywhere", "minreg_persist_anywhere",
+        "lwwreg_persist_anywhere", "map_persist_anywhere", "list_persist_anywhere", "glist_persist_anywhere", "merkle_roundtrip_bytes"]]
+        + ["Crdt.Witness.serde_rejects_pending_remove", "Crdt.Witness.serde_rejects_pending_key_remove", "Crdt.Witness.f9State_reachable"],
+    profiles=[dict(name="persist_hist", quick=1500, thorough=30000), dict(name="serde_vectors", quick=12, thorough=12),
+              dict(name="mvreg_raw", quick=300, thorough=5000), dict(name="mvreg_hist", quick=300, thorough=5000)],
+    oracle_fields=["same", "op", "conv", "pinned"],
+    explanation="serde model (Model/Json.lean, Model/Codec.lean: one codec per derive(Serialize, Deserialize), composed like the serde impls) with decode(encode x) = x proved for every state and op type and ALL values "
+                "that encode; encode fails iff a deferred table (Orswot, Map at any nesting level) is non-empty, with `key must be a string`; persist_anywhere: derivations with serialise/deserialise steps at arbitrary points "
+                "derive exactly the states of the plain execution model. Correspondence: P (state) and PO (op) at random points of histories of all 15 machine types, the history continuing on the restored value; JSON text compared "
+                "byte for byte (HashMap order canonicalised by sorting integer-keyed objects, MerkleReg modulo hash names); the 12 pinned vectors of test/serialization decoded and re-encoded by both sides and compared with the pinned text. "
+                "Oracle: same=true (restored == original), restored op shown = original op, conv at the end of the case, pinned=true. Known defect F9: replicas holding a pending remove cannot be serialised (witness replayed).",
+    statement_coverage="round trip proved for every type (MerkleReg over an abstract, assumed-lawful hash codec); the claim 'at any point of any history' is FALSE on the pinned tree for replicas holding pending removes "
+                       "(known finding KF-C19-serde-json-deferred, characterised exactly by orswot_encode_fails_iff / map_encode_fails_iff / orswot_reachable_encode_fails_iff)",
+    assumptions=["element codecs (actors, members, keys, values) round-trip – proved for u64 (Scalar.nat_lawful)", "the codec of Hash = [u8; 32] round-trips (MerkleReg; hashes are abstract in the model)",
+                 "parsing the printed text back into the tree is serde_json's job (trusted); u64 range outside the model"],
+)
+MANIFEST_TEXT["C19"] = dict(
+    text="Unbounded Lean theorems: for every state and op type the serde_json tree produced by the derive(Serialize) shape decodes back to the identical value; encoding fails exactly for states holding a non-empty deferred table "
+         "(Orswot, Map at any depth) – known defect recorded with kernel-checked witnesses –; persistence steps anywhere in a derivation do not change the derivable states. Model tied to the crate by byte-level comparison of the JSON text "
+         "at random points of histories of all types and on the crate's pinned test vectors.",
+    note=NOTE, technique="Lean 4 proof (compositional codec laws) + differential correspondence check (byte-level JSON)", design_ref="DESIGN.md §7 C19")
